@@ -7,21 +7,85 @@ import (
 	"unsafe"
 
 	"github.com/philpearl/plenc"
+	plencnull "github.com/philpearl/plenc/null"
 	"github.com/philpearl/plenc/plenccodec"
 	"github.com/philpearl/plenc/plenccore"
 )
 
-// Four instances, one per option combination; "cfg" atoms are "<protoTime><protoArrays>".
+// One instance per configuration; "cfg" is "<protoTime><protoArrays>" or
+// (cfg <flags> [null] (reg xTYPENAME xTAG codec)...).
 var instances = map[string]*plenc.Plenc{}
 
-func instance(cfg string) *plenc.Plenc {
-	if p, ok := instances[cfg]; ok {
-		return p
+var markerCodecs = map[string]plenccodec.Codec{
+	"bool": plenccodec.BoolCodec{}, "int8": plenccodec.IntCodec[int8]{}, "int16": plenccodec.IntCodec[int16]{},
+	"int32": plenccodec.IntCodec[int32]{}, "int64": plenccodec.IntCodec[int64]{},
+	"uint8": plenccodec.UintCodec[uint8]{}, "uint16": plenccodec.UintCodec[uint16]{},
+	"uint32": plenccodec.UintCodec[uint32]{}, "uint64": plenccodec.UintCodec[uint64]{},
+	"flat8": plenccodec.FlatIntCodec[uint8]{}, "flat16": plenccodec.FlatIntCodec[uint16]{},
+	"flat32": plenccodec.FlatIntCodec[uint32]{}, "flat64": plenccodec.FlatIntCodec[uint64]{},
+	"f32": plenccodec.Float32Codec{}, "f64": plenccodec.Float64Codec{},
+	"str": plenccodec.StringCodec{}, "bytes": plenccodec.BytesCodec{},
+	"time": plenccodec.TimeCodec{}, "timec": plenccodec.TimeCompatCodec{},
+}
+
+func regTypeByName(n string) (reflect.Type, bool) {
+	goNames := map[string]string{"bool": "bool", "int8": "int8", "int16": "int16", "int32": "int32", "int64": "int64",
+		"uint8": "uint8", "uint16": "uint16", "uint32": "uint32", "uint64": "uint64", "float32": "f32", "float64": "f64", "string": "str"}
+	if b, ok := goNames[n]; ok {
+		return basicTypes[b], true
 	}
-	p := &plenc.Plenc{ProtoCompatibleTime: cfg[0] == '1', ProtoCompatibleArrays: cfg[1] == '1'}
+	if n == "time.Time" {
+		return timeType, true
+	}
+	if n == "[]byte" {
+		return reflect.TypeOf([]byte(nil)), true
+	}
+	if t, ok := extTypes[n]; ok {
+		return t, true
+	}
+	t, ok := staticTypes[n]
+	return t, ok
+}
+
+func instance(cfg *Sexp) (*plenc.Plenc, string, error) {
+	key := cfg.String()
+	flags := key
+	if cfg.IsL {
+		if cfg.head() != "cfg" || len(cfg.List) < 2 {
+			return nil, "", fmt.Errorf("bad cfg")
+		}
+		flags = cfg.List[1].Atom
+	}
+	if len(flags) != 2 {
+		return nil, "", fmt.Errorf("bad cfg flags")
+	}
+	if p, ok := instances[key]; ok {
+		return p, flags, nil
+	}
+	p := &plenc.Plenc{ProtoCompatibleTime: flags[0] == '1', ProtoCompatibleArrays: flags[1] == '1'}
 	p.RegisterDefaultCodecs()
-	instances[cfg] = p
-	return p
+	if cfg.IsL {
+		for _, it := range cfg.List[2:] {
+			if !it.IsL && it.Atom == "null" {
+				plencnull.AddCodecs(p)
+				continue
+			}
+			if it.head() == "reg" && len(it.List) == 4 {
+				n, e1 := unhx(it.List[1].Atom)
+				tg, e2 := unhx(it.List[2].Atom)
+				c, ok := markerCodecs[it.List[3].Atom]
+				rt, ok2 := regTypeByName(string(n))
+				if e1 != nil || e2 != nil || !ok || !ok2 {
+					return nil, "", fmt.Errorf("bad reg")
+				}
+				p.RegisterCodecWithTag(rt, string(tg), c)
+				continue
+			}
+			return nil, "", fmt.Errorf("bad cfg item")
+		}
+	}
+	instances[key] = p
+	return p, flags, nil
 }
 
 // guard runs f, mapping a recoverable panic to the outcome class "panic".
@@ -95,6 +159,20 @@ func renderCodec(c plenccodec.Codec) string {
 	case plenccodec.TimeCompatCodec:
 		return "timec"
 	}
+	switch fmt.Sprintf("%T", c) {
+	case "null.nullIntCodec":
+		return "(ptr int64)"
+	case "null.nullBoolCodec":
+		return "(ptr bool)"
+	case "null.nullFloatCodec":
+		return "(ptr f64)"
+	case "null.nullStringCodec":
+		return "(ptr str)"
+	case "*null.internedNullStringCodec":
+		return "(ptr istr)"
+	case "*null.nullTimeCodec":
+		return "(ptr time)"
+	}
 	return fmt.Sprintf("(unknown %T)", c)
 }
 
@@ -144,9 +222,9 @@ func parseCtx(s *Sexp) (*opCtx, error) {
 	if len(s.List) < 4 {
 		return nil, fmt.Errorf("short op")
 	}
-	cfg := s.List[1].Atom
-	if len(cfg) != 2 {
-		return nil, fmt.Errorf("bad cfg")
+	p, cfg, err := instance(s.List[1])
+	if err != nil {
+		return nil, err
 	}
 	td, err := parseTyDef(s.List[2])
 	if err != nil {
@@ -160,7 +238,7 @@ func parseCtx(s *Sexp) (*opCtx, error) {
 	if err != nil {
 		return nil, err
 	}
-	return &opCtx{cfg: cfg, td: td, tag: string(tag), rt: rt, p: instance(cfg)}, nil
+	return &opCtx{cfg: cfg, td: td, tag: string(tag), rt: rt, p: p}, nil
 }
 
 func (c *opCtx) codec() (plenccodec.Codec, error) {
